@@ -155,6 +155,21 @@ Theorem C15_units_exact :
 Proof. exact (@main_units_exact). Qed.
 Print Assumptions C15_units_exact.
 
+(* Bosonic (linear combination of Gaussians) state formulas: mean photon number for any number of weights,
+   and the hbar**N prefactor of fidelity_coherent against the determinant it is divided by, for any N. *)
+Theorem C15_bosonic_dimensionless :
+  forall (K : Type) (F : Fld K),
+    field_theory (f0 F) (f1 F) (fadd F) (fmul F) (fsub F) (fopp F) (fdiv F) (finv F) (@eq K) ->
+    two F <> f0 F ->
+  forall (c c' : hctx K) (lam : K), good F c -> good F c' -> sh2 c' = fmul F lam (sh2 c) ->
+  forall (l : list (K * K * K)) (N : nat) (detsum : K),
+  let m := fmul F in
+  bos_mean_photon F c' (map (fun t => match t with (w, tr, dot) => (w, m (m lam lam) tr, m (m lam lam) dot) end) l)
+  = bos_mean_photon F c l
+  /\ (detsum <> f0 F -> bos_fid_prefsq F c' N (m (kpow F (m lam lam) (2 * N)) detsum) = bos_fid_prefsq F c N detsum).
+Proof. exact (@main_bosonic). Qed.
+Print Assumptions C15_bosonic_dimensionless.
+
 (* Gaussian parity_expectation over the full register (len(modes) = N) is hbar-free ... *)
 Theorem C15_parity_full_register_invariant :
   forall (K : Type) (F : Fld K),
